@@ -125,6 +125,13 @@ theorem C08_trained_resume (parseP : CPs → Option Nat) (showP : Nat → CPs) (
     (s.queue = [] → s.popped.Perm ((allNodes g).filter fun v => sfAlg.le (nodeProb sfAlg.toPOps g v) m)) :=
   C08_resume_binary64 g (trained_grid_wf parseP showP neg1 hround hshow g hcols) m s h
 
+/-- ... and the file is that name with the suffix `.sav` appended, nothing taken away (the one expression of `main` that names it,
+regenerated from the source): names with dots keep their last component -/
+theorem C08_save_file_name_expression :
+    Generated.Session.savNameExpr = "program_info['session_name']+'.sav'" ∧
+    (Generated.Session.sessionNameExprs.filter (fun e => e.1 == "pcfg_guesser.py")) =
+      [("pcfg_guesser.py", "main", "program_info['session_name']+'.sav'")] := by decide
+
 /-- the saved position is filed under the session name as typed: the only assignment to `program_info['session_name']`
 in `pcfg_guesser.py` is `args.session` (regenerated from the source) - two sessions with different names never resume from each
 other's save file -/
